@@ -18,6 +18,8 @@ import Wz.Gen.NopElim
 import Wz.Gen.SideEffects
 import Wz.Gen.InstrGroups
 import Wz.Proofs.C01_groups
+import Wz.Model.CalleeSaved
+import Wz.Gen.RegSaved
 
 namespace Wz.C01
 open Wz.Spec Wz.Spec.Wasm Wz.Model.InterpStraight
@@ -232,6 +234,31 @@ theorem group_classes_match_model :
     classOf "Store" = some "sideEffectStrict" ∧ classOf "Istore8" = some "sideEffectStrict" ∧
     classOf "Call" = some "sideEffectStrict" ∧ classOf "CallIndirect" = some "sideEffectStrict" ∧
     classOf "AtomicRmw" = some "sideEffectStrict" ∧ classOf "ExitIfTrueWithCode" = some "sideEffectStrict" := by decide
+
+/-! ### callee-saved registers: what the caller keeps across a call survives it -/
+
+/-- **Every callee-saved register is preserved** by a function whose written registers are all recorded -
+for any body, any register contents (model `Wz.Model.CalleeSaved`; the save set is what
+`determineCalleeSavedRealRegs` computes). -/
+theorem callee_saved_registers_preserved (calleeSaved recorded writes : List Nat) (w : Nat → Nat)
+    (rs : Wz.Model.CalleeSaved.Regs) (hrec : ∀ r ∈ writes, r ∈ recorded) :
+    ∀ r ∈ calleeSaved, Wz.Model.CalleeSaved.call (Wz.Model.CalleeSaved.savedSet recorded calleeSaved) writes w rs r = rs r :=
+  Wz.Model.CalleeSaved.callee_saved_preserved calleeSaved recorded writes w rs hrec
+
+/-- The hypothesis is needed: a scratch register (8, callee-saved) written but not recorded comes back changed
+- the shape of a seeded change in `reconcileEdge`. -/
+theorem unrecorded_scratch_register_witness :
+    Wz.Model.CalleeSaved.call (Wz.Model.CalleeSaved.savedSet [0, 1] [8, 9]) [0, 1, 8] (fun _ => 7) (fun _ => 3) 8 = 7 ∧
+    Wz.Model.CalleeSaved.call (Wz.Model.CalleeSaved.savedSet [0, 1, 8] [8, 9]) [0, 1, 8] (fun _ => 7) (fun _ => 3) 8 = 3 := by decide
+
+/-- **Regenerated obligation** (backend/regalloc/regalloc.go): the save set is the recorded set filtered by the
+callee-saved registers, and every instruction the allocator inserts that writes a real register (reload, move,
+swap - including the swap's scratch register) records that register. -/
+theorem every_inserted_register_write_is_recorded :
+    Wz.Gen.RegSaved.savedSetShape = "a.state.allocatedRegSet | a.regInfo.CalleeSavedRegisters" ∧
+    Wz.Gen.RegSaved.writes.all (fun w => w.2.2.2) = true ∧
+    (Wz.Gen.RegSaved.writes.filter (fun w => w.2.1 == "SwapBefore")).length = 3 ∧
+    5 ≤ Wz.Gen.RegSaved.writes.length := by decide
 
 /-! ### the reference semantics -/
 
